@@ -23,3 +23,9 @@ pub mod probe;
 pub mod c09;
 #[cfg(all(kani, feature = "fam_c11x"))]
 pub mod c11x;
+#[cfg(all(kani, feature = "fam_c15"))]
+pub mod c15;
+#[cfg(all(kani, feature = "fam_c15s"))]
+pub mod c15s;
+#[cfg(all(kani, feature = "fam_c17"))]
+pub mod c17;
